@@ -131,4 +131,52 @@ TimeWord(days, secs) == AddBytes(MulBytes(Word32(days), 86400, 0), Word32(secs),
 \* representable iff days*86400+secs < 2^32: days <= 49710 and (days = 49710 => secs <= 23295)
 TimeRepresentable(days, secs) == days < 49710 \/ (days = 49710 /\ secs <= 23295)
 
+(***************************************************************************)
+(* Construction of typed AVP data (C10b).  The input universe is abstract: *)
+(*   [py |-> "bytes", b |-> bytes]                                         *)
+(*   [py |-> "int",   neg |-> BOOLEAN, mag |-> big-endian magnitude]       *)
+(*   [py |-> "str",   s |-> bytes (UTF-8)]                                 *)
+(*   [py |-> "datetime", days, secs]   (since 1900-01-01, may be negative) *)
+(*   [py |-> "none"], [py |-> "float"], [py |-> "list"]                    *)
+(* Construct_T(v) is Accept(data) when v denotes a value of the type's     *)
+(* domain and Reject otherwise.  The property demands: Accept(d) => the    *)
+(* built AVP carries exactly d; Reject => an exception, never a silently   *)
+(* malformed or empty AVP.                                                 *)
+(***************************************************************************)
+StripZeros(m) == IF m = <<>> \/ Head(m) # 0 THEN m ELSE
+                   LET RECURSIVE S(_) S(x) == IF x = <<>> \/ Head(x) # 0 THEN x ELSE S(Tail(x)) IN S(m)
+PadLeft(m, n) == [i \in 1..(n - Len(m)) |-> 0] \o m
+UIntData(v, n) == LET m == StripZeros(v.mag) IN
+                  IF ~v.neg /\ Len(m) <= n THEN Accept(PadLeft(m, n)) ELSE Reject
+ConstructUnsigned(v, n) ==
+    CASE v.py = "bytes" -> IF Len(v.b) = n THEN Accept(v.b) ELSE Reject
+      [] v.py = "int"   -> UIntData(v, n)
+      [] OTHER -> Reject
+ConstructU32(v) == ConstructUnsigned(v, 4)
+ConstructU64(v) == ConstructUnsigned(v, 8)
+\* Integer32 / Enumerated data are given as the 4 bytes of the value
+ConstructI32(v) == IF v.py = "bytes" /\ Len(v.b) = 4 THEN Accept(v.b) ELSE Reject
+ConstructEnum(v, values) == IF v.py = "bytes" /\ v.b \in values THEN Accept(v.b) ELSE Reject
+ConstructTime(v) ==
+    CASE v.py = "bytes" -> IF Len(v.b) = 4 THEN Accept(v.b) ELSE Reject
+      [] v.py = "datetime" -> IF v.days >= 0 /\ v.secs \in 0..86399 /\ TimeRepresentable(v.days, v.secs)
+                              THEN Accept(TimeWord(v.days, v.secs)) ELSE Reject
+      [] OTHER -> Reject
+\* Address: a literal (by structure) or family + packed bytes with matching width
+ConstructAddr(v) ==
+    CASE v.py = "bytes" -> IF AddressBytesOk(v.b) THEN Accept(v.b) ELSE Reject
+      [] v.py = "literal" -> IF AddressOk(v) THEN Accept(AddressData(v)) ELSE Reject
+      [] OTHER -> Reject
+ConstructStr(v) ==
+    CASE v.py = "bytes" -> Accept(v.b)
+      [] v.py = "str" -> Accept(v.s)
+      [] OTHER -> Reject
+\* DiameterURI: only the scheme rule of the statement is specified; the rest of the grammar is
+\* given by the harness as a flag (wellformed) computed from the URI's structure, not by bromelia
+ConstructURI(v) ==
+    IF v.py \in {"bytes", "str"} /\ v.scheme \in {"aaa", "aaas"} /\ v.wellformed THEN Accept(v.text) ELSE Reject
+\* Grouped: member codes must include every mandatory code
+ConstructGrouped(memberkeys, mandatorykeys, allavps) ==
+    IF allavps /\ mandatorykeys \subseteq memberkeys THEN Accept(<<>>) ELSE Reject
+
 =============================================================================
